@@ -25,6 +25,53 @@ def make_array(recipe):
     if "hex" in recipe or "val" in recipe:
         return hex_to_arr(recipe)
     kind = recipe["kind"]
+    # composite recipes (kernels, index sets, weights) built from other recipes
+    if kind == "gram":
+        B = make_array(recipe["base"])
+        return np.ascontiguousarray(_kernel(B, B, recipe.get("kernel", "linear")))
+    if kind == "cross":
+        A, B = make_array(recipe["a"]), make_array(recipe["b"])
+        return np.ascontiguousarray(_kernel(A, B, recipe.get("kernel", "linear")))
+    if kind == "rows":
+        B = make_array(recipe["base"])
+        return np.ascontiguousarray(B[np.asarray(recipe["idx"], dtype=int)])
+    if kind == "linear_of":
+        X = make_array(recipe["X"])
+        rs = np.random.RandomState(recipe["seed"] & 0x7FFFFFFF)
+        p = int(recipe.get("p", 1))
+        Y = X @ rs.standard_normal((X.shape[1], p)) + float(recipe.get("noise", 0.1)) * rs.standard_normal((X.shape[0], p))
+        if recipe.get("squeeze") and p == 1:
+            Y = Y[:, 0]
+        return np.ascontiguousarray(Y)
+    if kind == "index":
+        rs = np.random.RandomState(recipe["seed"] & 0x7FFFFFFF)
+        n, k = int(recipe["n"]), int(recipe["k"])
+        idx = rs.permutation(n)[:k]
+        if recipe.get("sorted"):
+            idx = np.sort(idx)
+        return idx.astype(np.int64)
+    if kind == "weights":
+        rs = np.random.RandomState(recipe["seed"] & 0x7FFFFFFF)
+        n = int(recipe["n"])
+        mode = recipe.get("mode", "uniform")
+        if mode == "ints":
+            w = rs.randint(1, 4, size=n).astype(float)
+        elif mode == "normalized":
+            w = rs.uniform(0.2, 2.0, size=n)
+            w = w / w.sum()
+        else:
+            w = rs.uniform(0.2, 2.0, size=n)
+        return w
+    if kind == "spd_stack":
+        rs = np.random.RandomState(recipe["seed"] & 0x7FFFFFFF)
+        k, d = int(recipe["k"]), int(recipe["d"])
+        out = np.zeros((k, d, d))
+        for i in range(k):
+            L = rs.standard_normal((d, d))
+            out[i] = L @ L.T + d * np.eye(d)
+        return out[0] if recipe.get("single") else out
+    if kind == "const":
+        return np.full(tuple(recipe["shape"]), float(recipe["value"]))
     n, d = recipe["shape"]
     rs = np.random.RandomState(recipe["seed"] & 0x7FFFFFFF)
     if kind == "gauss":
@@ -39,7 +86,7 @@ def make_array(recipe):
     elif kind == "lattice":
         a = rs.randint(-2, 3, size=(n, d)).astype(float)
     elif kind == "dups":
-        m = max(2, n // 2)
+        m = min(n, max(2, n // 2))
         base = rs.standard_normal((m, d))
         a = base[rs.randint(m, size=n)]
         a[:m] = base
@@ -68,6 +115,15 @@ def make_array(recipe):
     if recipe.get("squeeze"):
         a = a.reshape(-1) if d == 1 else a
     return np.ascontiguousarray(a, dtype=np.float64)
+
+
+def _kernel(A, B, kernel):
+    if kernel == "linear":
+        return A @ B.T
+    if kernel == "rbf":
+        d2 = (A**2).sum(1)[:, None] + (B**2).sum(1)[None, :] - 2 * A @ B.T
+        return np.exp(-np.maximum(d2, 0.0) / A.shape[1])
+    raise ValueError(kernel)
 
 
 def explicit(recipe):
@@ -102,6 +158,8 @@ class Heap:
         elif storage == "readonly":
             arr = np.array(values, order="C", copy=True)
             arr.setflags(write=False)
+        elif storage == "view" and values.ndim not in (1, 2):
+            arr = np.array(values, order="C", copy=True)
         elif storage == "view":
             # strided view into a larger guarded buffer
             if values.ndim == 2:
@@ -115,7 +173,7 @@ class Heap:
             arr[...] = values
         elif storage == "memmap":
             if self._tmpdir is None:
-                self._tmpdir = tempfile.mkdtemp(prefix="hostsim_heap_")
+                self._tmpdir = tempfile.mkdtemp(prefix="hostsim_heap_", dir=os.environ.get("HOSTSIM_TMP") or None)
             path = os.path.join(self._tmpdir, f"{name}.dat")
             mm = np.memmap(path, dtype=values.dtype, mode="w+", shape=values.shape)
             mm[...] = values
@@ -142,6 +200,27 @@ class Heap:
     def pristine(self, name):
         e = self.entries[name]
         return np.frombuffer(e["snap"], dtype=e["dtype"]).reshape(e["shape"]).copy()
+
+    def twin_copy(self, name):
+        """A private, writable copy with the same values *and the same memory layout*
+        as the caller's array, so that a history-free twin performs bit-identical
+        arithmetic."""
+        e = self.entries[name]
+        v = self.pristine(name)
+        if e["storage"] == "F":
+            return np.array(v, order="F", copy=True)
+        if e["storage"] == "view" and v.ndim in (1, 2):
+            if v.ndim == 2:
+                n, d = v.shape
+                buf = np.zeros((2 * n + 2, 2 * d + 2), dtype=v.dtype)
+                arr = buf[1 : 2 * n + 1 : 2, 1 : 2 * d + 1 : 2]
+            else:
+                n = v.shape[0]
+                buf = np.zeros((2 * n + 2,), dtype=v.dtype)
+                arr = buf[1 : 2 * n + 1 : 2]
+            arr[...] = v
+            return arr
+        return v
 
     def check(self):
         """Return the names of entries whose bytes (or canaries) changed."""
